@@ -368,6 +368,15 @@ def run(check: Check) -> None:
             _crs_case(check, fnc, cyclic, kn, mode, tmo)
     for cyclic, df in ((False, 3), (False, 4), (True, 3)):
         _crs_center(check, cc if cyclic else cr, cyclic, train, df, tmo)
+    # floating point (ground): data whose offset dwarfs its spread, tiny and huge scales - partition of unity and affine invariance
+    for tname, (name, vec) in itertools.product(("bs", "cr", "cc"), (("offset 1e8", [1e8 + 0.5 * k * k for k in range(9)]), ("scale 1e-8", [1e-8 * (k + 1) ** 1.5 for k in range(9)]),
+                                                                  ("scale 1e12", [1e12 * (k * k + 1) for k in range(9)]), ("offset -2e9", [-2e9 + 3.0 * k for k in range(9)]))):
+        p = {"kind": "c12_float", "transform": tname, "x": vec}
+        bad = replays.run(p)
+        check.case(f"float {tname} {name}")
+        check.obligation("splines.float/ground", "refuted" if bad else "ground")
+        if bad:
+            check.violation(f"spline_float({tname})::{bad.split(':', 1)[0]}", bad, p)
     # a null x is neither inside nor outside the bounds: under EVERY mode its row is null, nothing is raised for it, the other rows and the
     # recorded state are what they are without it (ground)
     for tname, mode, replay_state in itertools.product(("cr", "cc", "cs", "bs"), ("extend", "clip", "zero", "na", "raise"), (False, True)):
